@@ -626,8 +626,20 @@ func genAssertFacts(repo string) (string, []string, interface{}) {
 	}
 	sb.WriteString("]\n\n")
 
+	shape, e4 := asPrescanShape(repo)
+	errs = append(errs, e4...)
+	sb.WriteString("/-- control skeleton of sql.checkLiteralIdentifiers (the pre-scan that must agree with sqlparser's tokenizer): every branch\n    condition, loop header, return and update of the position, in source order -/\ndef prescanShape : List String := [\n")
+	for i, l := range shape {
+		sep := ","
+		if i == len(shape)-1 {
+			sep = ""
+		}
+		fmt.Fprintf(&sb, "  %s%s\n", asLeanStr(l), sep)
+	}
+	sb.WriteString("]\n\n")
+
 	return sb.String(), errs, map[string]interface{}{"assert_sites": len(sites), "unguarded": nUnguarded, "recover_funcs": len(recs), "tables": len(order),
-		"sql_consts": len(consts), "crosshift_ops": ops}
+		"sql_consts": len(consts), "crosshift_ops": ops, "prescan_shape": len(shape)}
 }
 
 // ---- numeric guards of CROSSHIFT (C16 update: sign / magnitude of client-controlled parameters)
@@ -799,4 +811,78 @@ func asCrosshiftFacts(repo string) ([][2]string, []string, []string) {
 		}
 	}
 	return consts, ops, errs
+}
+
+// ---- the pre-scan's control skeleton (C16 update: lexer agreement)
+
+// asPrescanShape lists, in source order, every branch condition (if / case / default), loop
+// header, return statement, break / continue, assignment and increment of
+// sql.checkLiteralIdentifiers, as source text.  The Lean model of the pre-scan
+// (Model/SqlLex.lean) is a transcription of exactly this skeleton.
+func asPrescanShape(repo string) ([]string, []string) {
+	path := filepath.Join(repo, "sql", "sql.go")
+	fset := token.NewFileSet()
+	f, err := parser.ParseFile(fset, path, nil, 0)
+	if err != nil {
+		return nil, []string{fmt.Sprintf("asserts: %v", err)}
+	}
+	var fn *ast.FuncDecl
+	for _, d := range f.Decls {
+		if fd, ok := d.(*ast.FuncDecl); ok && fd.Name.Name == "checkLiteralIdentifiers" && fd.Recv == nil {
+			fn = fd
+		}
+	}
+	if fn == nil || fn.Body == nil {
+		return nil, []string{"asserts: function checkLiteralIdentifiers not found in sql/sql.go"}
+	}
+	text := func(n ast.Node) string {
+		if n == nil {
+			return ""
+		}
+		return asOneLine(nodeText(fset, n))
+	}
+	var out []string
+	ast.Inspect(fn.Body, func(n ast.Node) bool {
+		switch x := n.(type) {
+		case *ast.IfStmt:
+			out = append(out, "if "+text(x.Cond))
+		case *ast.ForStmt:
+			out = append(out, "for "+text(x.Init)+"; "+text(x.Cond)+"; "+text(x.Post))
+		case *ast.SwitchStmt:
+			out = append(out, "switch "+text(x.Tag))
+		case *ast.CaseClause:
+			if x.List == nil {
+				out = append(out, "default")
+			} else {
+				parts := make([]string, len(x.List))
+				for i, e := range x.List {
+					parts[i] = text(e)
+				}
+				out = append(out, "case "+strings.Join(parts, ", "))
+			}
+		case *ast.ReturnStmt:
+			parts := make([]string, len(x.Results))
+			for i, e := range x.Results {
+				parts[i] = text(e)
+			}
+			out = append(out, "return "+strings.Join(parts, ", "))
+		case *ast.BranchStmt:
+			out = append(out, x.Tok.String())
+		case *ast.IncDecStmt:
+			if id, ok := x.X.(*ast.Ident); ok && id.Name == "i" {
+				out = append(out, text(x))
+			}
+		case *ast.AssignStmt:
+			if len(x.Rhs) == 1 {
+				if fl, ok := x.Rhs[0].(*ast.FuncLit); ok {
+					// a local helper: its name and signature, the body follows
+					out = append(out, text(x.Lhs[0])+" := "+text(fl.Type))
+					return true
+				}
+			}
+			out = append(out, text(x))
+		}
+		return true
+	})
+	return out, nil
 }
